@@ -3,7 +3,7 @@ import numpy as np
 
 from .. import graphs as G
 from .. import oracles as O
-from .common import call, close
+from .common import call, close, layout_variants_agree
 
 PROP = 'C18'
 ANCHORS = ['mean_first_passage_time', 'diffusion_efficiency', 'pagerank_centrality', 'subgraph_centrality',
@@ -131,6 +131,10 @@ def run_spectral(case, bct, REC):
         if repeated:
             REC.note_nontrivial(PROP, 'spectral', X)
     REC.tag(PROP, 'class:' + cls[0])
+    if 3 <= n <= 8 and case['ws'] % 7 == 0:
+        Xr = G.weigh(A, 'real', case['ws'], True)
+        for fn in ('subgraph_centrality', 'eigenvector_centrality_und', 'findwalks'):
+            layout_variants_agree(REC, PROP, fn, getattr(bct, fn), A if fn == 'findwalks' else Xr, rtol=0.0 if fn == 'findwalks' else 1e-8)
     if n <= 6:
         REC.sample(PROP, {'kind': 'spectral', 'A': A, 'eigenvalues': ev}, cap=3)
 
@@ -192,6 +196,10 @@ def run_walk(case, bct, REC):
                 if r.shape == (n,):
                     res = float(np.max(np.abs(r - d * (W @ (r / deg)) - (1 - d) * f)))
                     REC.check(PROP, 'pagerank_centrality', 'fixed_point', res <= 1e-10, dict(det, d=d, falff=fal, got=r, residual=res))
+    if n <= 9:
+        for fn in ('mean_first_passage_time', 'diffusion_efficiency'):
+            layout_variants_agree(REC, PROP, fn, getattr(bct, fn), W, rtol=1e-7)
+        layout_variants_agree(REC, PROP, 'pagerank_centrality', bct.pagerank_centrality, W, args=(.85,), rtol=1e-9)
     if periodic or directed:
         REC.note_nontrivial(PROP, 'walk', W)
     if n <= 6:
